@@ -85,5 +85,80 @@ pub struct G2 { pub dummy: u8 }""")
                         sig_edit=lambda sg: re.sub(r'<Self::Scalar\s+as\s+PrimeField>::Repr', 'FrRepr', sg)))
         u.add(u.real_fn(g.lower(), f're:impl\\s+CurveProjective\\s+for\\s+{g}\\b', 'recommended_wnaf_for_num_scalars', "    ensures 2 <= ret <= 22", ret='ret', vis='pub'))
         u.add("}")
+    contexts(u)
     u.close = "} // mod code\n"
     return u
+
+
+SCALAR_TY = re.compile(r'<<G\s+as\s+CurveProjective>::Scalar\s+as\s+PrimeField>::Repr')
+
+
+def contexts(u):
+    """the Wnaf context type-states (staging, reuse).  The two generic methods `base<G>` / `scalar<G>` are bounded by AsRef / AsMut, which the
+    crate's own API instantiates only with Vec<_>, &mut Vec<_> and &[_]: R6m writes each of them out at those instances (receiver expressions
+    `x.as_mut()` / `x.as_ref()` -> the reborrow std's impls return)."""
+    t = u.real_item('wnaf', 'struct', r'struct Wnaf\b')
+    u.add(re.sub(r'\n(\s*)(base|scalar|window_size):', r'\n\1pub \2:', t))
+
+    def common_sig(sg):
+        sg = sg.replace('G: CurveProjective', 'G: WnafCurve')
+        return SCALAR_TY.sub('G::ScalarRepr', sg)
+
+    def common_body(b):
+        return b.replace('::alloc::vec::Vec::new()', 'Vec::new()')
+    H0 = 're:impl<G: CurveProjective> Wnaf<\\(\\), Vec<G>, Vec<i64>>'
+    u.add("impl<G: WnafCurve> Wnaf<(), Vec<G>, Vec<i64>> {")
+    u.add(u.real_fn('wnaf', H0, 'new', "", ret='ret', sig_edit=common_sig, body_edit=common_body))
+    u.add(u.real_fn('wnaf', H0, 'base', """    ensures 2 <= ret.window_size <= 22, is_wnaf_table(ret.base@, base.pt(), ret.window_size as int), is_table_of_first(ret.base@, ret.window_size as int), ret.base@[0].pt() == base.pt()""",
+                    ret='ret', sig_edit=common_sig,
+                    body_edit=lambda b: common_body(b).replace('Wnaf {', 'proof { lemma_table_first(self.base@, base.pt(), window_size as int); assert(self.base@.subrange(0, self.base@.len() as int) =~= self.base@); } Wnaf {', 1)))
+    u.add(u.real_fn('wnaf', H0, 'scalar', """    requires scalar.val() + pow2(22) < G::ScalarRepr::cap()
+    ensures 2 <= ret.window_size <= 22, wv(ret.scalar@) == scalar.val(), digits_ok(ret.scalar@, ret.window_size as int)""",
+                    ret='ret', sig_edit=common_sig,
+                    body_edit=lambda b: common_body(b).replace('wnaf_form(', 'proof { lemma_pow2_le(window_size as nat, 22); } wnaf_form(', 1)
+                    .replace('Wnaf {', 'proof { assert(self.scalar@.subrange(0, self.scalar@.len() as int) =~= self.scalar@); } Wnaf {', 1)))
+    u.add("}")
+    # shared(): fresh space for the other half, the computed half and the window are carried over
+    u.add("impl<'a, G: WnafCurve> Wnaf<usize, &'a [G], &'a mut Vec<i64>> {")
+    u.add(u.real_fn('wnaf', "re:impl<'a, G: CurveProjective> Wnaf<usize, &'a \\[G\\], &'a mut Vec<i64>>", 'shared',
+                    "    ensures ret.base@ == self.base@, ret.window_size == self.window_size", ret='ret', sig_edit=common_sig, body_edit=common_body))
+    u.add("}")
+    u.add("impl<'a, G: WnafCurve> Wnaf<usize, &'a mut Vec<G>, &'a [i64]> {")
+    u.add(u.real_fn('wnaf', "re:impl<'a, G: CurveProjective> Wnaf<usize, &'a mut Vec<G>, &'a \\[i64\\]>", 'shared',
+                    "    ensures ret.scalar@ == self.scalar@, ret.window_size == self.window_size", ret='ret', sig_edit=common_sig, body_edit=common_body))
+    u.add("}")
+    # the two generic evaluation methods at the instances the API produces
+    HB = 're:impl<B, S: AsRef<\\[i64\\]>> Wnaf<usize, B, S>'
+    HS = 're:impl<B, S: AsMut<Vec<i64>>> Wnaf<usize, B, S>'
+
+    def mono_sig(sg):
+        sg = re.sub(r'<G:\s*CurveProjective>', '', sg)
+        sg = re.sub(r'\bwhere\s+B:\s*As(Mut|Ref)<[^{]*?>\s*$', '', sg.rstrip()) if re.search(r'\bwhere\b', sg) else sg
+        return common_sig(sg)
+    for hdr, mexpr in (("impl<'a, G: WnafCurve> Wnaf<usize, &'a mut Vec<G>, &'a [i64]>", '&mut *self.base'), ("impl<'a, G: WnafCurve> Wnaf<usize, Vec<G>, &'a [i64]>", '&mut self.base')):
+        def edit(b, mexpr=mexpr):
+            n = b.count('self.base.as_mut()') + b.count('self.scalar.as_ref()')
+            if n < 1:
+                raise weave.AnchorLost('Wnaf::base<G>: receiver expressions changed')
+            u.rewrites['R6m'] = u.rewrites.get('R6m', 0) + n
+            b = b.replace('self.base.as_mut()', mexpr).replace('self.scalar.as_ref()', 'self.scalar')
+            return b.replace('self.scalar)', 'self.scalar, Ghost(base.pt()), Ghost(self.window_size as int))', 1)
+        u.add(hdr + " {")
+        u.add(u.real_fn('wnaf', HB, 'base', """    requires 1 <= old(self).window_size <= 22, digits_ok(old(self).scalar@, old(self).window_size as int)
+    ensures ret.pt() == smul(wv(old(self).scalar@), base.pt()), final(self).scalar@ == old(self).scalar@, final(self).window_size == old(self).window_size""",
+                        ret='ret', sig_edit=mono_sig, body_edit=edit))
+        u.add("}")
+    for hdr, mexpr in (("impl<'a, G: WnafCurve> Wnaf<usize, &'a [G], &'a mut Vec<i64>>", '&mut *self.scalar'), ("impl<'a, G: WnafCurve> Wnaf<usize, &'a [G], Vec<i64>>", '&mut self.scalar')):
+        def edit(b, mexpr=mexpr):
+            n = b.count('self.scalar.as_mut()') + b.count('self.base.as_ref()')
+            if n < 1:
+                raise weave.AnchorLost('Wnaf::scalar<G>: receiver expressions changed')
+            u.rewrites['R6m'] = u.rewrites.get('R6m', 0) + n
+            b = b.replace('self.scalar.as_mut()', mexpr).replace('self.base.as_ref()', 'self.base')
+            b = b.replace('wnaf_exp(self.base, ' + mexpr + ')', 'wnaf_exp(self.base, ' + mexpr + ', Ghost(self.base@[0].pt()), Ghost(self.window_size as int))', 1)
+            return b.replace('{', '{ proof { lemma_pow2_le(self.window_size as nat, 22); }', 1)
+        u.add(hdr + " {")
+        u.add(u.real_fn('wnaf', HS, 'scalar', """    requires 1 <= old(self).window_size <= 22, is_table_of_first(old(self).base@, old(self).window_size as int), scalar.val() + pow2(22) < G::ScalarRepr::cap()
+    ensures ret.pt() == smul(scalar.val() as int, old(self).base@[0].pt()), final(self).base@ == old(self).base@, final(self).window_size == old(self).window_size""",
+                        ret='ret', sig_edit=mono_sig, body_edit=edit))
+        u.add("}")
